@@ -397,12 +397,12 @@ def part_traces(tier, seed, fields, names, binary, work):
 
 
 def part_long(tier, seed, names, binary):
-    """Quiescent conservation sums on long concurrent runs (hot rounds: few buckets, millions of sessions against tight
-    reset loops; wave rounds: a new user name hit by every goroutine at once)."""
+    """Quiescent conservation sums on long concurrent runs (hot rounds: three buckets, resetters doing back-to-back resets
+    while collectors record without pause; wave rounds: a new user name hit by every goroutine at once)."""
     big = tier == "thorough"
     inputs = [{"seed": seed * 100 + i, "params": {"names": names, "long": {
         "rounds": 4 if not big else 12, "goroutines": 8 if i % 2 == 0 else 12, "waves": 24, "perWave": 2000 if not big else 3000,
-        "resetters": 2 + i % 2, "snappers": 1}}} for i in range(2 if not big else 4)]
+        "resetters": 2 + i % 2, "snappers": 1, "resets": 60000 if not big else 300000}}} for i in range(2 if not big else 4)]
     return common.run_parallel(binary, "TestLongRun", inputs, 2400)
 
 
